@@ -12,7 +12,7 @@ E6 = [1.0, 1.5, 2.2, 3.3, 4.7, 6.8]
 SRC_V = [3.3, 5.0, 12.0, 24.0, 48.0, 3.7, 9.0, 1.5, 7.4]
 REG_V = [0.9, 1.2, 1.8, 2.5, 3.3, 5.0, 9.0, 12.0, 15.0]
 PHASE_NAMES = ["sleep", "idle", "tx", "rx", "move", "boot"]
-GROUPS = ["", "", "", "core", "rf", "io 1", "AFE"]
+GROUPS = ["", "", "", "core", "rf", "io 1", "AFE", "io", "rf2"]
 
 SERIES_KINDS = ["RLoss", "VLoss", "Converter", "LinReg", "PSwitch", "Rectifier"]
 ALL_CHILD_KINDS = ["PLoad", "ILoad", "RLoad"] + SERIES_KINDS
@@ -119,6 +119,14 @@ class Gen:
         return x
 
     def table(self, key, lo, hi, vnom, imax, mono=None):
+        t = self._table(key, lo, hi, vnom, imax, mono)
+        if self.r.chance(0.12):
+            t["vi"] = [-a for a in t["vi"]]  # a table written for a negative rail (magnitudes count)
+        if key == "vdrop" and self.r.chance(0.12):
+            t[key] = [[-a for a in r_] for r_ in t[key]]  # drops written with a sign (magnitudes count)
+        return t
+
+    def _table(self, key, lo, hi, vnom, imax, mono=None):
         """A 1-D or 2-D table for parameter `key` with values in [lo, hi]."""
         nio = self.r.randint(2, 4)
         ios = sorted(set(round(imax * f, 9) for f in self.r.sample([0.0, 0.01, 0.05, 0.1, 0.25, 0.5, 1.0, 1.5], nio)))
@@ -667,6 +675,9 @@ class Gen:
         for _, op in out:
             if op["op"] == "del_comp":
                 self.flagform(op)
+            p_ = op.get("parent")
+            if isinstance(p_, str) and m.rails.get(p_) and self.r.chance(0.5):
+                op["parent"] = m.rails[p_]  # the same parent, addressed by its rail
         return out
 
     def _reject_classes(self, m):
@@ -785,7 +796,10 @@ class Gen:
             cn = self.r.pick(m.order)
             if cn != "N/A" and cn not in names:
                 names[self.r.randint(0, n - 1)] = cn
-        return {"op": "set_sys_phases", "phases": {p: self.r.pick([0.1, 1.0, 5.5, 30.0, 120.0, 3600.0]) for p in names}}
+        ph = {p: self.r.pick([0.1, 1.0, 5.5, 30.0, 120.0, 3600.0]) for p in names}
+        if n >= 3 and self.cfg.get("zero_phase") and self.r.chance(0.3):
+            ph[self.r.pick(names)] = 0.0  # a phase that takes no time (the others do)
+        return {"op": "set_sys_phases", "phases": ph}
 
     def op_comp_phases(self, m, name=None, clear=False):
         cands = [n for n in m.order if m.kind(n) in LIST_PHASE_KINDS or m.kind(n) in LOADS]
